@@ -20,6 +20,30 @@ CHECKS = {
          'reference; missing/wrong evaluation_errors and non-finite results are refuting events.',
     note='Trusted: Python float = IEEE-754 binary64, math.* = the same glibc libm; <=1 ulp tolerated for libm/pow; sign of a '
          'zero result not observable through the printer; int/int division may round once or after promotion; only listed functors.'),
+ 'C03': dict(
+    level='exploration',
+    technique='runtime monitoring: differential oracle between 8 real evaluation contexts of the same generated expression',
+    text='Every generated expression tree (all evaluable functors x operand kinds incl. boxed-small, bignum, rational, float, '
+         'ill-typed and error-raising trees) is evaluated by the real engine in 8 contexts: run-time is/2, literal in a compiled '
+         'clause, call/3, inside findall/3, asserted clause body, =:= at run time, =:= compiled as a body goal and as an '
+         'if-then-else condition. Type-tagged values / error formals must coincide.',
+    note='Only agreement between contexts is asserted (correctness is C01/C02); error context ignored.'),
+ 'C04': dict(
+    level='exploration',
+    technique='runtime monitoring: reference ordering (int/Fraction/float) + internal-consistency invariant over the six comparison predicates',
+    text='Generated number pairs (small/bignum/boxed-small integers, rationals, doubles; strata for differences beyond 53 bits, '
+         'the 2^55 boundary, +-0.0, promotion overflow) are compared by the real engine with all six predicates, at run time and '
+         'compiled; outcomes are checked against the reference ordering and for mutual consistency (exactly one of < =:= >).',
+    note='Trusted: Python comparison semantics; ints too large for a double may compare as infinity or raise float_overflow; '
+         'outcomes explained exactly by the known 1-ulp rational promotion defect are reported as KNOWN-FINDING K18c.'),
+ 'C16': dict(
+    level='exploration',
+    technique='runtime monitoring: reference values (Python int/float parsing) for constructively generated literal texts + reader/number_codes/number_chars differential + print/read round trip',
+    text='Literal spellings generated together with their values (decimal with _ groups, 0b/0o/0x up to 200 digits, 0\'c with all '
+         'escapes, floats incl. 18-40 digit mantissas, exact halfway cases, subnormal/overflow boundaries, negatives, malformed '
+         'spellings) are read by the term reader, read_term_from_chars, number_chars and number_codes; values compared bit-exactly; '
+         'every number kind is also printed (number_codes, number_chars, writeq) and read back.',
+    note='Trusted: Python float() is correctly rounded. Which syntax_error is raised is not compared; sign of zero not compared.'),
 }
 
 NOT_APPLICABLE_REASON_UNBUILT = ('check designed in DESIGN.md but not built/validated yet in this session; '
